@@ -281,6 +281,19 @@ def r2(fx, chk):
     chk.require(ok, "R2", "From<BoxType>", "big-endian bytes of u32::from(box type)", "From<BoxType> for FourCC is not the big-endian code of the box type: " + sval.show(t)[:200], site_of(f_bt))
     # FromStr: exactly four bytes, stored in order, anything else rejected
     t = _hoist_try(ev(f_str))
+    # `<[u8; 4]>::try_from(bytes).map(Self::from).map_err(..)`: Result::map / map_err distribute over the two outcomes
+    def _push_result_adaptors(x):
+        if isinstance(x, tuple) and len(x) == 3 and x[0] == "ext" and isinstance(x[2], list) and x[2]:
+            nm = str(x[1])
+            inner = _push_result_adaptors(x[2][0])
+            is_ite = isinstance(inner, tuple) and inner[0] == "ite" and inner[2][0] == "variant" and last(inner[2][1]) == "Ok" and inner[2][2] and inner[3][0] == "variant" and last(inner[3][1]) == "Err"
+            if is_ite and nm.startswith("map_err"):
+                return ("ite", inner[1], inner[2], ("variant", inner[3][1], [("opaque", "map_err")]))
+            if is_ite and nm.startswith("map::<") and "From<[u8; 4]>>::from" in nm and f_arr is not None:
+                # the mapped function is the crate's From<[u8; 4]> for FourCC (checked above to store its argument unchanged)
+                return ("ite", inner[1], ("variant", inner[2][1], [("struct", "FourCC", {"value": inner[2][2][0]})]), inner[3])
+        return x
+    t = _push_result_adaptors(t)
     pn = f_str["hir"]["params"][0].get("name")
     ok = False
     if t[0] == "ite" and t[1] == ("lenis", ("slice", pn), 4):
